@@ -148,7 +148,11 @@ func vChanBody[T any](ops VOps[T], cd Codec[T], c Config, o *Outcome) func() {
 			vsched.Spawn("rr", func() {
 				for j := 0; ; j++ {
 					any := false
-					for i := range ins {
+					for k := range ins {
+						i := k
+						if c.RRDesc {
+							i = len(ins) - 1 - k
+						}
 						if j < len(c.Items[i]) {
 							ins[i].Send(cd.Enc(c.Items[i][j]))
 							any = true
@@ -179,6 +183,31 @@ func vChanBody[T any](ops VOps[T], cd Codec[T], c Config, o *Outcome) func() {
 	case "fmap":
 		if ops.Fmap == nil {
 			return nil
+		}
+		if c.LockStep {
+			return func() {
+				in := vsched.Make[T]("in", c.Caps[0]).SetTag(0)
+				ack := vsched.Make[int]("ack", 0)
+				vsched.Spawn("prod0", func() {
+					for _, v := range c.Items[0] {
+						in.Send(cd.Enc(v))
+						ack.Recv() // the consumer has the result of this item
+					}
+					in.Close()
+				})
+				out := ops.Fmap(func(x T) T { return cd.Enc(F(cd.Dec(x))) }, in)
+				vsched.Spawn("cons0", func() {
+					for {
+						v, ok := out.Recv()
+						if !ok {
+							o.SawClose[0] = true
+							return
+						}
+						o.Got[0] = append(o.Got[0], cd.Dec(v))
+						ack.Send(0)
+					}
+				})
+			}
 		}
 		return func() {
 			ins := mkIns()
@@ -343,7 +372,11 @@ func rChanRun[T any](ops ROps[T], cd Codec[T], c Config, r *rand.Rand, o *Outcom
 				jr := rand.New(rand.NewSource(seed))
 				for j := 0; ; j++ {
 					any := false
-					for i := range ins {
+					for k := range ins {
+						i := k
+						if c.RRDesc {
+							i = len(ins) - 1 - k
+						}
 						if j < len(c.Items[i]) {
 							jitter(jr)
 							ins[i] <- cd.Enc(c.Items[i][j])
@@ -393,6 +426,28 @@ func rChanRun[T any](ops ROps[T], cd Codec[T], c Config, r *rand.Rand, o *Outcom
 	case "fmap":
 		if ops.Fmap == nil {
 			return false
+		}
+		if c.LockStep {
+			in := make(chan T, c.Caps[0])
+			ack := make(chan int)
+			go func() {
+				for _, v := range c.Items[0] {
+					in <- cd.Enc(v)
+					<-ack
+				}
+				close(in)
+			}()
+			out := ops.Fmap(func(x T) T { return cd.Enc(F(cd.Dec(x))) }, in)
+			wg.Add(1)
+			go func() {
+				defer wg.Done()
+				for v := range out {
+					o.Got[0] = append(o.Got[0], cd.Dec(v))
+					ack <- 0
+				}
+				o.SawClose[0] = true
+			}()
+			break
 		}
 		ins := mkIns()
 		consume(0, ops.Fmap(func(x T) T { return cd.Enc(F(cd.Dec(x))) }, ins[0]))
